@@ -47,7 +47,9 @@ struct VSock {
   int fd = -1; int family = AF_INET; bool tcp = false; bool open = false; bool connected = false; bool connecting = false; bool tfo = false;
   int server = -1; Addr remote; Addr local;
   std::deque<Dgram> inq;           // UDP datagrams waiting (deliverable when now >= at)
-  Bytes instream; int64_t instream_at = 0; bool eof = false, reset = false;   // TCP server->client bytes
+  std::deque<std::pair<int64_t, Bytes>> inseg; bool eof = false, reset = false;   // TCP server->client bytes: (deliverable-at, bytes), in stream order
+  size_t avail(int64_t now) const { size_t n = 0; for (auto &sg : inseg) { if (sg.first > now) break; n += sg.second.size(); } return n; }
+  size_t queued() const { size_t n = 0; for (auto &sg : inseg) n += sg.second.size(); return n; }
   Bytes outstream;                 // TCP client->server bytes not yet framed by the server
   size_t udp_queries = 0;          // whole datagrams written on this UDP socket
   int64_t opened_at = 0; size_t closes = 0;
@@ -138,6 +140,7 @@ struct World {
   int default_ttl_mode = 0;
   ref::Name unknown;
   bool answer_mixed_families = false;    // put an AAAA next to A answers (and vice versa)
+  bool suppress_empty = false;           // C20 twin: do not send the zero-length datagram of the 'empty' outcome
   int cname_depth_mod = 3;
 
   World() { weights[O_ANSWER] = 1; }
@@ -263,14 +266,14 @@ struct World {
   void deliver(VSock &vs, const Bytes &reply, const Addr &from, int64_t delay, uint32_t serial, int oc = O_ANSWER) {
     if (vs.tcp && (vs.eof || vs.reset)) return;   // the server side of this stream is gone: nothing more can arrive on it
     if (!vs.tcp) {
-      if (oc == O_EMPTY) { Dgram z; z.from = from; z.at = now_us; vs.inq.push_back(z); }
+      if (oc == O_EMPTY && !suppress_empty) { Dgram z; z.from = from; z.at = now_us; vs.inq.push_back(z); }
       Dgram d; d.data = reply; d.from = from; d.at = now_us + delay; d.serial = serial; vs.inq.push_back(d);
     } else {
       Bytes framed; framed += (char)((reply.size() >> 8) & 0xff); framed += (char)(reply.size() & 0xff); framed += reply;
-      if (oc == O_EOFMID) { framed.resize(framed.size() / 2 + 1); vs.instream += framed; vs.eof = true; }
-      else vs.instream += framed;
+      if (oc == O_EOFMID) { framed.resize(framed.size() / 2 + 1); vs.eof = true; }
+      int64_t at = now_us + delay; if (!vs.inseg.empty()) at = std::max(at, vs.inseg.back().first);   // bytes cannot overtake earlier bytes of the stream
+      vs.inseg.push_back({at, framed});
       stream_bytes += framed.size();
-      vs.instream_at = std::max(vs.instream_at, now_us + delay);
     }
   }
 
@@ -322,12 +325,15 @@ struct World {
       }
       w.log("arecvfrom", fd, -1, EWOULDBLOCK); errno = EWOULDBLOCK; return -1;
     }
-    if (!s->instream.empty() && s->instream_at <= w.now_us) {
+    size_t av = s->avail(w.now_us);
+    if (av > 0) {
       size_t chunk = len; if (!w.chop.empty()) { chunk = w.chop[w.chop_i++ % w.chop.size()]; if (chunk == 0) chunk = 1; }
-      size_t n = std::min(std::min(len, chunk), s->instream.size()); memcpy(buf, s->instream.data(), n); s->instream.erase(0, n);
-      if (n < s->instream.size() + n) w.split_reads++;
+      size_t n = std::min(std::min(len, chunk), av), got = 0;
+      while (got < n) { Bytes &front = s->inseg.front().second; size_t take = std::min(n - got, front.size()); memcpy((char *)buf + got, front.data(), take); front.erase(0, take); got += take; if (front.empty()) s->inseg.pop_front(); }
+      if (n < av) w.split_reads++;
       w.log("arecvfrom", fd, (long)n, 0, n); return (ares_ssize_t)n;
     }
+    if (s->queued() > 0) { w.log("arecvfrom", fd, -1, EWOULDBLOCK); errno = EWOULDBLOCK; return -1; }   // later bytes still in flight
     if (s->reset) { w.log("arecvfrom", fd, -1, ECONNRESET); errno = ECONNRESET; return -1; }
     if (s->eof) { w.log("arecvfrom", fd, 0, 0); return 0; }
     w.log("arecvfrom", fd, -1, EWOULDBLOCK); errno = EWOULDBLOCK; return -1;
@@ -375,11 +381,11 @@ struct World {
   bool readable_now(const VSock &s) const {
     if (!s.open) return false;
     if (!s.tcp) { for (auto &d : s.inq) if (d.at <= now_us) return true; return false; }
-    return (!s.instream.empty() && s.instream_at <= now_us) || s.eof || s.reset;
+    return s.avail(now_us) > 0 || ((s.eof || s.reset) && s.queued() == 0);
   }
   int64_t next_delivery() const {
     int64_t best = -1;
-    for (auto &s : socks) if (s.open) { for (auto &d : s.inq) if (d.at > now_us && (best < 0 || d.at < best)) best = d.at; if (!s.instream.empty() && s.instream_at > now_us && (best < 0 || s.instream_at < best)) best = s.instream_at; }
+    for (auto &s : socks) if (s.open) { for (auto &d : s.inq) if (d.at > now_us && (best < 0 || d.at < best)) best = d.at; for (auto &sg : s.inseg) if (sg.first > now_us && (best < 0 || sg.first < best)) best = sg.first; }
     return best;
   }
 };
